@@ -32,6 +32,11 @@ let () =
           | t -> fail ("op " ^ t)) in
         let before = List.length (!s).delivered in
         s := rstep interval max !s o;
+        (* messages the engine emitted as an effect of this operation *)
+        while (match r.toks with "+E" :: _ -> true | _ -> false) do
+          ignore (next r);
+          s := rstep interval max !s (REmit (nat_of_int (next_int r)))
+        done;
         let fresh = List.filteri (fun k _ -> k >= before) (!s).delivered in
         Printf.printf "case %s op %d deliveries=[%s] rows=[%s]\n" cid j
           (String.concat ";" (List.map (fun (i, rt) -> Printf.sprintf "%d:%d" (int_of_nat i) (int_of_z rt)) fresh))
